@@ -439,6 +439,42 @@ def mutate(rng, d, depth=0):
     return rng.choice(ATOMS)
 
 
+def mentions_float(t, u, seen=None):
+    seen = set() if seen is None else seen
+    k = t[0]
+    if k == "float":
+        return True
+    if k in ("coll", "con"):
+        return mentions_float(t[2], u, seen)
+    if k in ("tuple", "union"):
+        return any(mentions_float(x, u, seen) for x in t[1])
+    if k == "map":
+        return mentions_float(t[1], u, seen) or mentions_float(t[2], u, seen)
+    if k == "obj":
+        if t[1] in seen:
+            return False
+        seen.add(t[1])
+        return any(mentions_float(f["ty"], u, seen) for f in u["classes"][t[1]]["fields"])
+    return False
+
+
+def has_inexact_int(d):
+    """an int that float() rounds (beyond 2^53): the model's floats are exact rationals q/4, so the int -> float conversion of
+    such a datum is outside the modelled fragment"""
+    if isinstance(d, bool) or isinstance(d, Other):
+        return False
+    if isinstance(d, int):
+        try:
+            return abs(d) > 2 ** 53 and int(float(d)) != d
+        except OverflowError:
+            return False          # too large for a float: rejected by both sides
+    if isinstance(d, list):
+        return any(has_inexact_int(x) for x in d)
+    if isinstance(d, dict):
+        return any(has_inexact_int(v) for v in d.values())
+    return False
+
+
 def in_fragment(d):
     """floats must be quarter multiples (or nan / inf); strings ASCII"""
     if isinstance(d, Other):
@@ -495,19 +531,81 @@ Definition al_p : string -> string := fun s => "p_" ++ s.
 
 
 # ------------------------------------------------------------------ running the implementation
+def clear_typing_caches():
+    """typing memoises its subscriptions with keys compared by ==, and Union[A, B] == Union[B, A], Literal[1, 'a'] ==
+    Literal['a', 1]: building Dict[str, Union[A, B]] after Dict[str, Union[B, A]] returns the *earlier* object, whose
+    alternatives are in the other order.  The caches are emptied before each universe / type is materialised, and equal
+    unions / literals of one universe are given one order (canon_type), so that the Python type is the one the descriptor
+    (and the Gallina term) describes."""
+    import typing
+    for f in getattr(typing, "_cleanups", []):
+        try:
+            f()
+        except Exception:   # noqa
+            pass
+
+
+def canon_type(t, reg):
+    """one order per set of alternatives / literal values within a universe (first seen wins)"""
+    k = t[0]
+    if k == "union":
+        alts = [canon_type(a, reg) for a in t[1]]
+        key = ("U", frozenset(repr(a) for a in alts))
+        if key in reg:
+            order = reg[key]
+            alts = sorted(alts, key=lambda a: order.index(repr(a)))
+        else:
+            reg[key] = [repr(a) for a in alts]
+        return ("union", alts)
+    if k == "lit":
+        vals = list(t[1])
+        key = ("L", frozenset((type(v).__name__, repr(v)) for v in vals))
+        if key in reg:
+            order = reg[key]
+            vals = sorted(vals, key=lambda v: order.index((type(v).__name__, repr(v))))
+        else:
+            reg[key] = [(type(v).__name__, repr(v)) for v in vals]
+        return ("lit", vals)
+    if k == "coll":
+        return ("coll", t[1], canon_type(t[2], reg))
+    if k == "con":
+        return ("con", t[1], canon_type(t[2], reg))
+    if k == "tuple":
+        return ("tuple", [canon_type(a, reg) for a in t[1]])
+    if k == "map":
+        return ("map", canon_type(t[1], reg), canon_type(t[2], reg))
+    return t
+
+
+def canon_universe(u):
+    reg = {}
+    for cl in u["classes"]:
+        for f in cl["fields"]:
+            f["ty"] = canon_type(f["ty"], reg)
+        for m in cl.get("methods", []):
+            m["ty"] = canon_type(m["ty"], reg)
+    return reg
+
+
 class Universe:
     """a materialised universe: real Python classes in a fresh module"""
 
     def __init__(self, u, spell=0):
         self.u = u
         self.spell = spell
+        self.registry = canon_universe(u)
         self.src = universe_src(u, spell)
+        clear_typing_caches()
         self.mod = pyrun.exec_module(self.src)
         self._types = {}
+
+    def canon(self, t):
+        return canon_type(t, self.registry)
 
     def type(self, t):
         s = ty_src(t, self.spell, quote=False)
         if s not in self._types:
+            clear_typing_caches()
             self._types[s] = eval(s, self.mod.__dict__)
         return self._types[s]
 
